@@ -305,6 +305,7 @@ def job_dfa(job, n, k):
             job.oblige('any object returned for a text with %s satisfies the DFA invariant' % label,
                        d.and_(failed ^ 1, dfa_invalid(DfaView(res, None, None, prune=False))), replay=rpv)
     job.failures_as_obligations(replay=rp)
+    job.sample_replays = 3
     return job.solve()
 
 
@@ -391,6 +392,7 @@ def job_nfa(job, n, k, eps):
             job.oblige('any object returned for a text with %s satisfies the NFA invariant' % label,
                        d.and_(failed ^ 1, nfa_invalid(NfaView(res, None, None))), replay=rpv)
     job.failures_as_obligations(replay=rp)
+    job.sample_replays = 3
     return job.solve()
 
 
@@ -498,6 +500,7 @@ def job_pda(job, states, eps, seed, nt=7):
                    d.and_(failed ^ 1, d.any_(bad)), replay=rp)
         job.must_reach('epsilon undeclared and used only on the stack side', d.all_([lay.eps_decl ^ 1, uses_eps]) if eps != '_' else TRUE)
     job.failures_as_obligations(replay=rp)
+    job.sample_replays = 3
     return job.solve()
 
 
@@ -578,6 +581,7 @@ def job_tm(job, blank, tstep=3):
         job.oblige('parse_tm returns exactly the described machine (states, alphabets, blank, table, initial / accept / reject states)',
                    d.and_(failed ^ 1, d.any_(bad)), replay=rp)
     job.failures_as_obligations(replay=rp)
+    job.sample_replays = 3
     return job.solve()
 
 
@@ -622,6 +626,7 @@ def job_labels(job, kind):
         job.oblige('well-formed %s description yields exactly the machine written' % kind.upper(), TRUE if got != exp else FALSE, replay=rpg)
         job.result['notes'].append('parsed: %r' % (got,))
     job.failures_as_obligations(replay=rpg)
+    job.sample_replays = 3
     return job.solve()
 
 
@@ -666,7 +671,9 @@ def _replay_text(parse, rp, summary):
     try:
         obj = parse(rp['text'])
     except Exception as e:
-        return rp['expect'] != 'error', {'raised': repr(e), 'text': rp['text']}
+        # an exception violates only the expectation 'same'; for 'error' it is the required outcome, for 'valid' (whatever
+        # is returned satisfies the invariant) nothing was returned
+        return rp['expect'] == 'same', {'raised': repr(e), 'text': rp['text']}
     if rp['expect'] == 'error':
         return True, {'accepted although malformed': summary(obj), 'text': rp['text']}
     return None, obj
